@@ -68,6 +68,24 @@ Fixpoint clean_parents (fuel : nat) (p : path) (ds : list path) : list path :=
     end
   end.
 
+(* metrics/meta.deleteEmptyParentDirectories(p): p and some of its parents may be gone already
+   (removed by a call that did not finish); the climb starts at the first parent that still
+   exists:  for { parent := path.Dir(dir); if parent exists {break}; dir = parent };
+   RecursivelyDeleteEmptyParentDirectories(dir) *)
+Fixpoint climb_start (fuel : nat) (p : path) (ds : list path) : path :=
+  match fuel with
+  | O => p
+  | S f =>
+    let t := removelast p in
+    match t with
+    | [] => p
+    | _ => if mem_path t ds then p else climb_start f t ds
+    end
+  end.
+
+Definition clean_parents_from_missing (fuel : nat) (p : path) (ds : list path) : list path :=
+  clean_parents fuel (climb_start fuel p ds) ds.
+
 (* ---------- segments and the store ---------- *)
 Inductive kind := KLog | KMet.
 
@@ -197,29 +215,21 @@ Section Pass.
   (* the same pass if the temporary file were opened without O_TRUNC (refutation only) *)
   Definition log_effs_notrunc : N -> Z -> store -> list eff := log_effs_gen false.
 
-  (* the loop over metricSegmentsToDelete in DeleteMetricsSegmentData: an entry that is
-     not in the in-memory metadata makes the function return before any file is touched *)
-  Fixpoint mmem_phase (sel : list seg) (mm : list path) : list eff * bool :=
-    match sel with
-    | [] => ([], true)
-    | s :: r =>
-      if mem_path (s_dir s) mm then
-        let '(es, ok) := mmem_phase r (del_path (s_dir s) mm) in (EMMemDel (s_dir s) :: es, ok)
-      else ([], false)
-    end.
-
-  (* removeMetricsSegmentsByList, first loop: file order; RemoveAll(dir) and the climb *)
-  Fixpoint met_dir_phase (sel : list seg) (entries : list seg) (ds : list path) : list eff * list path :=
+  (* removeMetricsSegmentsByList, first loop: file order; RemoveAll(dir) and the climb
+     [cl]: deleteEmptyParentDirectories (the code) or, before the fix, the plain
+     RecursivelyDeleteEmptyParentDirectories *)
+  Fixpoint met_dir_phase (cl : nat -> path -> list path -> list path)
+      (sel : list seg) (entries : list seg) (ds : list path) : list eff * list path :=
     match entries with
     | [] => ([], ds)
     | e :: r =>
       if in_sel sel e then
         let ds1 := rm_tree (s_dir e) ds in
-        let ps := clean_parents (length (s_dir e)) (s_dir e) ds1 in
+        let ps := cl (length (s_dir e)) (s_dir e) ds1 in
         let ds2 := fold_left (fun d t => rm_tree t d) ps ds1 in
-        let '(es, ds3) := met_dir_phase sel r ds2 in
+        let '(es, ds3) := met_dir_phase cl sel r ds2 in
         (ERm (s_dir e) :: map ERmEmpty ps ++ es, ds3)
-      else met_dir_phase sel r ds
+      else met_dir_phase cl sel r ds
     end.
 
   Fixpoint dedup (l : list path) : list path :=
@@ -228,31 +238,62 @@ Section Pass.
     | p :: r => if mem_path p r then dedup r else p :: dedup r
     end.
 
-  (* last loop: tags-tree directories of removed entries that no preserved entry names *)
-  Fixpoint tt_phase (tts : list path) (ds : list path) : list eff :=
+  (* tags-tree directories of removed entries that no preserved entry names *)
+  Fixpoint tt_phase (cl : nat -> path -> list path -> list path) (tts : list path) (ds : list path) : list eff :=
     match tts with
     | [] => []
     | t :: r =>
       let ds1 := rm_tree t ds in
-      let ps := clean_parents (length t) t ds1 in
+      let ps := cl (length t) t ds1 in
       let ds2 := fold_left (fun d x => rm_tree x d) ps ds1 in
-      ERm t :: map ERmEmpty ps ++ tt_phase r ds2
+      ERm t :: map ERmEmpty ps ++ tt_phase cl r ds2
     end.
 
+  (* DeleteMetricsSegmentData: DeleteMetricsSegmentKey for every selected entry (an entry the
+     in-memory metadata does not hold is logged and otherwise treated like the others), then
+     removeMetricsSegmentsByList: segment directories, tags-tree directories that no preserved
+     line names, and only then the rewrite of metricmeta.json (tmp + rename, or removal) *)
   Definition met_effs (hz : N) (org : Z) (st : store) : list eff :=
     let sel := sel_met hz org st in
     match sel with
     | [] => []
     | _ =>
-      let '(mes, ok) := mmem_phase (ord sel) (mmem st) in
+      let removed := filter (in_sel sel) (mmeta st) in
+      let keep := keep_of sel (mmeta st) in
+      let '(des, ds1) := met_dir_phase clean_parents_from_missing sel (mmeta st) (dirs st) in
+      let tts := filter (fun t => negb (mem_path t (map s_tt keep))) (ordp (dedup (map s_tt removed))) in
+      map (fun s => EMMemDel (s_dir s)) (ord sel) ++ des
+      ++ tt_phase clean_parents_from_missing tts ds1
+      ++ match keep with [] => [EMmRemove] | _ => [EMmTmp; EMmSet keep] end
+    end.
+
+  (* ---- the metrics half before the three repairs (documentation, C14_prefix_*_refuted) ----
+     an entry that is not in the in-memory metadata made DeleteMetricsSegmentData return before
+     any file was touched; the tags-tree directories were removed AFTER metricmeta.json had been
+     rewritten; the climb could not start from a directory that was already gone *)
+  Fixpoint mmem_phase_prefix (sel : list seg) (mm : list path) : list eff * bool :=
+    match sel with
+    | [] => ([], true)
+    | s :: r =>
+      if mem_path (s_dir s) mm then
+        let '(es, ok) := mmem_phase_prefix r (del_path (s_dir s) mm) in (EMMemDel (s_dir s) :: es, ok)
+      else ([], false)
+    end.
+
+  Definition met_effs_prefix (hz : N) (org : Z) (st : store) : list eff :=
+    let sel := sel_met hz org st in
+    match sel with
+    | [] => []
+    | _ =>
+      let '(mes, ok) := mmem_phase_prefix (ord sel) (mmem st) in
       if negb ok then mes else
       let removed := filter (in_sel sel) (mmeta st) in
       let keep := keep_of sel (mmeta st) in
-      let '(des, ds1) := met_dir_phase sel (mmeta st) (dirs st) in
+      let '(des, ds1) := met_dir_phase clean_parents sel (mmeta st) (dirs st) in
       let tts := filter (fun t => negb (mem_path t (map s_tt keep))) (ordp (dedup (map s_tt removed))) in
       mes ++ des
       ++ match keep with [] => [EMmRemove] | _ => [EMmTmp; EMmSet keep] end
-      ++ tt_phase tts ds1
+      ++ tt_phase clean_parents tts ds1
     end.
 
   (* DoRetentionBasedDeletion(ingestNodeDir, hours, orgid): both selections are computed
@@ -310,13 +351,22 @@ Section Pass.
     let me := met_effs hz org st1 in
     le ++ me ++ vt_effs org (apply_effs me st1).
 
+  Definition pass_effs_prefix (hz : N) (org : Z) (st : store) : list eff :=
+    let le := log_effs hz org st in
+    let st1 := apply_effs le st in
+    let me := met_effs_prefix hz org st1 in
+    le ++ me ++ vt_effs org (apply_effs me st1).
+
   Definition run (hz : N) (org : Z) (st : store) : store := apply_effs (pass_effs hz org st) st.
+  Definition run_prefix (hz : N) (org : Z) (st : store) : store := apply_effs (pass_effs_prefix hz org st) st.
   Definition run_notrunc (hz : N) (org : Z) (st : store) : store := apply_effs (pass_effs_notrunc hz org st) st.
   Definition run_unfixed (hz : N) (org : Z) (st : store) : store := apply_effs (pass_effs_unfixed hz org st) st.
 
   (* the pass stopped after k primitive effects *)
   Definition interrupted (k : nat) (hz : N) (org : Z) (st : store) : store :=
     apply_effs (firstn k (pass_effs hz org st)) st.
+  Definition interrupted_prefix (k : nat) (hz : N) (org : Z) (st : store) : store :=
+    apply_effs (firstn k (pass_effs_prefix hz org st)) st.
   Definition interrupted_unfixed (k : nat) (hz : N) (org : Z) (st : store) : store :=
     apply_effs (firstn k (pass_effs_unfixed hz org st)) st.
 End Pass.
